@@ -83,6 +83,11 @@ def check_existing(ctx, doc, loc, val):
             "from_parts(str).resolve": lambda: JSONPointer.from_parts(list(toks), unicode_escape=ue).resolve(doc),
             "pointer.resolve(parts)": lambda: jsonpath.pointer.resolve(list(toks), doc, unicode_escape=ue),
             "pointer.resolve": lambda: jsonpath.pointer.resolve(text, doc, unicode_escape=ue),
+            # the parts handed over as one-shot iterables (string tokens, and the location's own parts with int indices)
+            "from_parts(generator).resolve": lambda: JSONPointer.from_parts((t for t in toks), unicode_escape=ue).resolve(doc),
+            "from_parts(iter of location parts).resolve": lambda: JSONPointer.from_parts(iter(list(loc)), unicode_escape=ue).resolve(doc),
+            "pointer.resolve(generator of location parts)": lambda: jsonpath.pointer.resolve((p_ for p_ in loc), doc, unicode_escape=ue),
+            "pointer.resolve(map)": lambda: jsonpath.pointer.resolve(map(str, toks), doc, unicode_escape=ue),
             "JSONPointer.resolve": lambda: JSONPointer(text, unicode_escape=ue).resolve(doc),
             "resolve(default)": lambda: JSONPointer(text, unicode_escape=ue).resolve(doc, default="DEFAULT"),
             "resolve_parent": lambda: JSONPointer(text, unicode_escape=ue).resolve_parent(doc)[1],
@@ -134,6 +139,10 @@ def check_unevaluable(ctx, doc, toks, why):
         for rname, fn in (("from_parts(str)", lambda: JSONPointer.from_parts(list(toks), unicode_escape=ue).resolve(doc)),
                           ("pointer.resolve(parts, default)", lambda: jsonpath.pointer.resolve(list(toks), doc, default="DEFAULT", unicode_escape=ue)),
                           ("relative.to()", (lambda: JSONPointer("/zz-unused", unicode_escape=ue).to("1" + text, unicode_escape=ue).resolve(doc)) if text == text.strip() else (lambda: p.resolve(doc))),
+                          ("from_parts(generator)", lambda: JSONPointer.from_parts((t for t in toks), unicode_escape=ue).resolve(doc)),
+                          ("from_parts(iter with int parts)", lambda: JSONPointer.from_parts(iter([int(t) if rp.CANON_INDEX.match(t) and len(t) < 15 else t for t in toks]), unicode_escape=ue).resolve(doc)),
+                          ("pointer.resolve(generator, default)", lambda: jsonpath.pointer.resolve((t for t in toks), doc, default="DEFAULT", unicode_escape=ue)),
+                          ("from_parts(generator).exists", lambda: JSONPointer.from_parts((t for t in toks), unicode_escape=ue).exists(doc)),
                           ("from_parts(str).exists", lambda: JSONPointer.from_parts(list(toks), unicode_escape=ue).exists(doc))):
             oo = impl.call(fn)
             bad = (oo.ok and not (rname.endswith("default)") and oo.value == "DEFAULT") and not (rname.endswith("exists") and oo.value is False))
